@@ -21,10 +21,8 @@
 #ifndef VP_MAXBLK
 #define VP_MAXBLK 16
 #endif
-/* native build WITHOUT ASan (the generated-C side of the translator validation): glibc reuses a freed address at once and the block
- * registry of vp_track.h looks blocks up by address, so a recycled address would read as "released twice"; keep freed blocks there.
- * CBMC and the ASan build of the real C++ free for real (use-after-free stays observable; ASan's quarantine prevents reuse). */
-#if (defined(VP_NATIVE) && !defined(__SANITIZE_ADDRESS__)) || (defined(__CPROVER__) && defined(C15_PATHS))
+/* single-path queries keep released blocks allocated (see SRC_FREE below) */
+#if defined(__CPROVER__) && defined(C15_PATHS)
 #define VP_NO_REAL_FREE
 #endif
 #ifdef __CPROVER__
@@ -33,10 +31,23 @@
 #include <string.h>
 static inline void *c15_memset(void *d, int c, size_t n) { uint8_t *p = (uint8_t *)d; for(size_t i = 0; i < n; i++) p[i] = (uint8_t)c; return d; }
 #define memset c15_memset
+#else
+/* random translator-validation runs only ($VP_RANDOM): allocator blocks get 8 defined slack bytes, like the source buffers (see mk() below), so that
+ * an off-by-one on the string's own buffer makes generated C and real C++ behave alike there and is reported by the solver + ASan replay instead */
+static void *c15_malloc(size_t n) { size_t slack = getenv("VP_RANDOM") ? 8 : 0; unsigned char *p = (unsigned char *)malloc(n + slack); if(p) for(size_t i = 0; i < slack; i++) p[n + i] = 0xA5; return p; }
+#define malloc(n) c15_malloc(n)
+/* ... and released blocks stay allocated in those runs: glibc would hand a freed address out again at once (the block registry of vp_track.h looks
+ * blocks up by address: a recycled address reads as "released twice"), and a use-after-free must not make the two builds die differently either.
+ * CBMC and the native replay of a counterexample (ASan build of the real C++) free for real: use-after-free stays observable there. */
+static void c15_free(void *p) { if(!getenv("VP_RANDOM")) free(p); }
+#define free(p) c15_free(p)
 #endif
 #include "vp_track.h"
 #ifdef __CPROVER__
 #undef memset
+#else
+#undef malloc
+#undef free
 #endif
 
 typedef struct S_class_frg__basic_string str_t;
@@ -61,9 +72,6 @@ size_t lca, lcb;                                  /* the C strings CA / CB denot
 view_t VA, VB, VA2;
 int nulla, nullb;                                 /* length 0 only: the view is the default-constructed (nullptr, 0) one */
 
-/* Exact-size objects under CBMC and in the native replay of a counterexample (ASan).  Only the random translator-validation runs
- * ($VP_RANDOM) append 8 defined slack bytes: there the generated C (no sanitizer) and the real C++ (ASan) must BEHAVE alike, and a
- * one-byte over-read would otherwise make the two builds differ in how they die instead of being reported by the solver + replay. */
 /* CBMC's model of free() branches on a nondeterministic choice (which freed pointer to remember): in single-path mode every free doubles the
  * number of paths, so the single-path queries (-DC15_PATHS) keep the source buffers and the released blocks allocated */
 #ifdef C15_PATHS
@@ -71,6 +79,9 @@ int nulla, nullb;                                 /* length 0 only: the view is 
 #else
 #define SRC_FREE(p) free(p)
 #endif
+/* Exact-size objects under CBMC and in the native replay of a counterexample (ASan).  Only the random translator-validation runs
+ * ($VP_RANDOM) append 8 defined slack bytes: there the generated C (no sanitizer) and the real C++ (ASan) must BEHAVE alike, and a
+ * one-byte over-read would otherwise make the two builds differ in how they die instead of being reported by the solver + replay. */
 static uint8_t *mk(const uint8_t *src, size_t n, int cstr) {
 	size_t slack = 0;
 	VP_NATIVE_ONLY(if(getenv("VP_RANDOM")) slack = 8;)
@@ -333,7 +344,7 @@ static uint32_t digest(str_t *s) { uint32_t h = (uint32_t)s_size(s); uint8_t *d 
 
 /* ---------------------------------------------------------------- one constructor / observer from constructed strings */
 enum { S_DEFAULT, S_ALLOC, S_CSTR, S_ALLOC_CSTR, S_PTRLEN, S_ALLOC_PTRLEN, S_VIEW, S_ALLOC_VIEW, S_FILL, S_COPY, S_MOVE,
-       S_ASSIGN_CSTR, S_APPEND_CSTR, S_INDEX, S_ITERATE, S_COMPARE, S_EQ, S_COMPARE_CSTR, S_EQ_CSTR, S_NE_CSTR, S_EQ_VIEW, S_TO_VIEW, S_STARTS_WITH, S_ENDS_WITH, S_HASH, S_NOPS };
+       S_ASSIGN_CSTR, S_APPEND_CSTR, S_INDEX, S_ITERATE, S_COMPARE, S_EQ, S_COMPARE_CSTR, S_EQ_CSTR, S_NE_CSTR, S_EQ_VIEW, S_TO_VIEW, S_STARTS_WITH, S_ENDS_WITH, S_HASH, S_PLUS_VIEW, S_PLUS_CHAR, S_PLUS_SELF, S_NOPS };
 static void str_op(int op, uint8_t c, uint64_t idx);
 void harness_str(void) {
 	int op; uint8_t c; uint64_t idx;
@@ -379,6 +390,10 @@ static void str_op(int op, uint8_t c, uint64_t idx) {
 		/* the moved-from string is valid: it kept its value (frigg copies) or became empty */
 		if(s_size(&S0) == 0) n0 = 0;
 		break;
+	/* operator+ builds a NEW string (S2) and leaves its operands alone */
+	case S_PLUS_VIEW: s_plus_view(&S2, &S0, &VB); live2 = 1; mset(m2, &n2, m0, n0); mapp(m2, &n2, b, lb); break;
+	case S_PLUS_CHAR: s_plus_char(&S2, &S0, c); live2 = 1; mset(m2, &n2, m0, n0); mapp(m2, &n2, &c, 1); break;
+	case S_PLUS_SELF: s_plus_self(&S2, &S0); live2 = 1; mset(m2, &n2, m0, n0); mapp(m2, &n2, m0, n0); break;      /* s + view of s itself */
 	/* the two mutators that take a C string (single-path queries, see cstrings(); they stay out of the enumerated histories) */
 	case S_ASSIGN_CSTR: s_assign_cstr(&S0, CB); mset(m0, &n0, cb, lcb); break;
 	case S_APPEND_CSTR: s_append_cstr(&S0, CB); mapp(m0, &n0, cb, lcb); break;
